@@ -275,6 +275,60 @@ def check_count(cfg, w, rep, lf, rd):
                           short(lf.path), "; ".join(why) or "no accumulation found"), loc=blk_loc(lf.body, rd.blk), config=cfg, rule="b-count")
 
 
+def _check_ok_or_form(cfg, w, rep, lf, t, is_find):
+    """`index::find(cache, key)?.ok_or_else(|| Error::EntryNotFound(cache, key))?`: the miss is the Break arm of the `?` on the
+    ok_or(_else) result; it must reach nothing but the return, and the error must be EntryNotFound of the looked-up (cache, key)."""
+    prog = w.prog
+    body = lf.body
+    key = fn_key(lf)
+    cf = prog.cfg(body)
+    okors = [(blk, tt) for blk, tt in body.calls() if tt.callee is not None and re.search(r"Option::<T>::(ok_or_else|ok_or)$", tt.callee.path)
+             and tt.args and all(is_find(o) for o in prog.resolve_op(body, tt.args[0], IDENT, blk.i)) and prog.resolve_op(body, tt.args[0], IDENT, blk.i)]
+    if len(okors) != 1:
+        return False
+    oblk, ot = okors[0]
+
+    def is_okor(o):
+        return o.kind == "call" and o.term is ot and not o.path
+    tg = try_gates(prog, body, is_okor, level=IDENT)
+    if not tg:
+        return False
+    # the error value
+    err_ok = False
+    for o in prog.resolve_op(body, ot.args[1], IDENT, oblk.i):
+        eb, evar, eops = None, None, None
+        if o.kind == "agg" and o.info.j.get("agg") == "closure":
+            cb = prog.by_path.get(o.info.j["path"])
+            if cb is not None:
+                for bb in cb.blocks:
+                    for st in bb.stmts:
+                        if st.k == "assign" and st.rv.k == "agg" and st.rv.j.get("agg") == "adt" and st.rv.j.get("path") == "errors::Error":
+                            eb, evar, eops = cb, st.rv.j["variant"], st.rv.ops
+        elif o.kind == "agg" and o.info.j.get("path") == "errors::Error":
+            eb, evar, eops = o.body, o.info.j["variant"], o.info.ops
+        if evar == "EntryNotFound" and eops and len(eops) >= 2:
+            a0 = param_indices(prog, prog.resolve_lifted(eb, eops[0].place.local, norm_path(eops[0].place), IDENT) if eops[0].place is not None else set(), lf)
+            a1 = param_indices(prog, prog.resolve_lifted(eb, eops[1].place.local, norm_path(eops[1].place), IDENT) if eops[1].place is not None else set(), lf)
+            c_i = param_indices(prog, prog.resolve_op(body, t.args[0], IDENT), lf)
+            k_i = param_indices(prog, prog.resolve_op(body, t.args[1], IDENT), lf)
+            err_ok = bool(a0) and bool(a1) and a0 == c_i and a1 == k_i
+    for g in tg:
+        for (u, miss) in g.other_edges:
+            reach = cf.reachable(miss)
+            leaks = [e.kind for e in w.own_effects(lf) if e.body is body and e.blk in reach]
+            leaks += ["call " + short(gg.path) for bb, bblk, tt, gg in prog.local_calls(lf) if bb is body and bblk.i in reach and w.reach_effects(gg)]
+            rds = [rd for rd in ret_defs(prog, body) if rd.blk in reach]
+            if leaks:
+                rep.violation("c-miss-effect:%s" % key, "`%s` touches the filesystem (%s) when the key is not found" % (short(lf.path), ", ".join(leaks)),
+                              loc=blk_loc(body, miss), config=cfg, rule="c-miss")
+            elif not err_ok or not rds or any(rd.cls != "failure" for rd in rds):
+                rep.violation("c-miss-error:%s" % key, "`%s` does not return Error::EntryNotFound(cache, key) of its own lookup on a missing key" % short(lf.path),
+                              loc=blk_loc(body, miss), config=cfg, rule="c-miss")
+            else:
+                rep.ob(cfg, "c-miss", key, "miss arm of `%s` (`ok_or_else(..)?`) returns Err(EntryNotFound(cache, key)) and reaches no effect" % short(lf.path))
+    return True
+
+
 def check_keyed_extract(cfg, w, rep, lf, finds):
     prog = w.prog
     body = lf.body
@@ -288,6 +342,8 @@ def check_keyed_extract(cfg, w, rep, lf, finds):
         def is_find(o):
             return o.kind == "call" and o.term is t and o.path in ((("v", "Ok"), ("f", "0")), (("await",), ("v", "Ok"), ("f", "0")))
         mg = match_gates(prog, body, is_find, "Some")
+        if not mg and _check_ok_or_form(cfg, w, rep, lf, t, is_find):
+            continue
         if not mg:
             rep.violation("c-nomatch:%s" % key, "`%s` does not branch on whether the key was found" % short(lf.path),
                           loc=span_str(t.span), config=cfg, rule="c-miss")
